@@ -111,8 +111,8 @@ def sdiv_inexact_cases(rng, x, dt, tag, n=3):
                 if not tn.equal(r.cores[k], want):
                     err = float(((r.cores[k] - want).abs() / want.abs().clamp_min(1e-300)).max())
                     return "x / scalar (%s, value %r): core %d is not the correctly rounded quotient (relative deviation %.3g)" % (kname, q64, k, err)
-            if not changed and float(sum(c.abs().sum().real for c in x.cores)) > 0 and q64 != 1.0:
-                return "x / scalar returned x unchanged"
+            if not changed and q64 != 1.0 and bool((dense_of(x) != 0).any()):
+                return "x / scalar returned x unchanged although the tensor is not zero"
             return None
         cases.append(Case(None, impl, oracle, "sdiv-inexact/%s/%s" % (kname, tag), True, desc="x / %r (%s) x.N=%s dtype=%s" % (q64, kname, list(x.N), dt)))
     return cases
